@@ -21,8 +21,8 @@ func init() { extraCmds["run"] = cmdRun }
 // ---------------------------------------------------------------------------------------------
 // fixed point projections (DESIGN.md section 5)
 
-var nonFinite []string // names of non finite values met while projecting the current event
-var outOfRange []string // water-family values that do not fit the projection (machinery, not a property matter)
+var nonFinite []string   // names of non finite values met while projecting the current event
+var outOfRange []string  // water-family values that do not fit the projection (machinery, not a property matter)
 var outOfRangeN []string // nitrogen-family values that do not fit the projection
 
 const limbBase = 1000000
@@ -144,7 +144,7 @@ type runTracer struct {
 	lastZeit  int
 	dayEvents map[string]bool
 	skip      map[string]bool
-	preCnt    [3]float64 // SICKER, CAPSUM, DRAISUM before Water() (sub.pre)
+	preCnt    [3]float64  // SICKER, CAPSUM, DRAISUM before Water() (sub.pre)
 	c1Move    [21]float64 // mineral N per layer before nmove() (nitro.move)
 	stopped   bool
 }
@@ -227,7 +227,7 @@ func nstate(e ev, g *hermes.GlobalVarsMain) {
 		minv = math.Min(minv, math.Min(g.MINAOS[i], g.MINFOS[i]))
 	}
 	minc := math.Inf(1)
-	for _, c := range []float64{g.OUTSUM, g.DRAINLOSS, g.AUFNASUM, g.CUMDENIT, g.N2onitsum, g.UMS, g.DSUMM, g.NH4UMS, g.NH4Sum, g.NFIXSUM} {
+	for _, c := range []float64{g.OUTSUM, g.DRAINLOSS, g.AUFNASUM, g.CUMDENIT, g.N2onitsum, g.N2Odencum, g.UMS, g.DSUMM, g.NH4UMS, g.NH4Sum, g.NFIXSUM} {
 		minc = math.Min(minc, c)
 	}
 	e["minPool"] = fx("minPool", minv, 6)
@@ -646,7 +646,8 @@ func (t *runTracer) event(point string, kv ...interface{}) {
 }
 
 // cmdRun runs one project in-process with the probes projecting into an NDJSON trace.
-//   worker run -root <dir> -out <trace> [-skip a,b] -- <batch line arguments>
+//
+//	worker run -root <dir> -out <trace> [-skip a,b] -- <batch line arguments>
 func cmdRun(args []string) error {
 	fs := flag.NewFlagSet("run", flag.ExitOnError)
 	root := fs.String("root", ".", "working directory (contains project/, parameter/, weather/)")
